@@ -238,9 +238,25 @@ type genChooser struct {
 	r      *prng.R
 	policy string
 	mean   float64
+	calls  int
 }
 
 func (g *genChooser) Next(live []int, last int) sched.Decision {
+	d := g.next(live, last)
+	// a long-running phase (a pipeline that legitimately executes millions of scheduling points, e.g.
+	// ForceDuration(3h) followed by Fragment(0.7s)) is finished with ever coarser time slices instead of
+	// exhausting the step budget; the budgets actually used are what is recorded and replayed
+	g.calls++
+	switch {
+	case g.calls > 300000:
+		d.Budget *= 4096
+	case g.calls > 100000:
+		d.Budget *= 64
+	}
+	return d
+}
+
+func (g *genChooser) next(live []int, last int) sched.Decision {
 	pick := live[g.r.Intn(len(live))]
 	switch g.policy {
 	case "rr":
@@ -829,12 +845,10 @@ func (e *c20Eval) judge(sc C20Scenario, res ScenarioResult, races []string) (vs 
 	}
 	for pi, ph := range res.Phases {
 		if ph.Err != "" {
-			if strings.Contains(ph.Err, "step budget") {
-				vs = append(vs, Violation{Property: "C20", Class: "no-progress", Signature: "C20 no-progress",
-					Detail: fmt.Sprintf("phase %d did not finish within the step budget: %s", pi, ph.Err), Scenario: scJSON})
-			} else {
-				inconclusive = true
-			}
+			// step budget or watchdog: the run was abandoned. Whether the tree under test really fails to
+			// terminate is decided separately by running the same tasks one after the other without the
+			// scheduler (confirmHang); an abandoned scheduled run alone is inconclusive, never a violation.
+			inconclusive = true
 			break
 		}
 		if pi >= len(sc.Phases) {
